@@ -60,6 +60,14 @@ class SymInterp:
 
     # ------------------------------------------------------------------ expressions
     def ev(self, e: ast.AST, p: Path):
+        if isinstance(e, ast.IfExp):
+            # inside a larger expression: only where the path already decides the test (a specialised flag, an assumed comparison)
+            c = self.cond(e.test, p)
+            if c is True:
+                return self.ev(e.body, p)
+            if c is False:
+                return self.ev(e.orelse, p)
+            raise Undecided("expression %s" % unparse(e)[:80])
         if isinstance(e, ast.Constant):
             if isinstance(e.value, bool):
                 return e.value
